@@ -3,3 +3,4 @@ import Driver.Enum
 import Driver.StrHelpers
 import Driver.Names
 import Driver.Splicer
+import Driver.Decl
